@@ -112,6 +112,10 @@ func (r *runner) exp(s string) *time.Time {
 	if s == "" {
 		return nil
 	}
+	if s == "-1h" { // an expiration that has passed already (only on Create over an occupied key: stream "occupied")
+		t := r.expAt.Add(-2 * time.Hour)
+		return &t
+	}
 	t := r.expAt
 	return &t
 }
@@ -377,6 +381,9 @@ func coqVal(id int) string {
 func coqExpIn(s string) string {
 	if s == "" {
 		return "None"
+	}
+	if s == "-1h" {
+		return "(Some (-3600000000000)%Z)"
 	}
 	return farExp
 }
@@ -866,6 +873,28 @@ func main() {
 	}
 	creators("inmem", p.crI, 16, "C02CI")
 	creators("redis", p.crR, 6, "C02CR")
+	// ---- creators on an OCCUPIED key, some of them with a record that does not expire / expires in an hour / has
+	// expired already: whatever the new record looks like, every one of them loses and reports the stored version
+	occupied := func(be string, n, rounds int, salt string) {
+		for i := 0; i < n; i++ {
+			r := prng.New(fl.Seed, salt, uint64(i))
+			var prog []POp
+			for rd := 0; rd < rounds; rd++ {
+				key := fmt.Sprintf("k%d", rd)
+				prog = append(prog, POp{T: -1, R: rd, Op: kvx.Op{K: "C", Key: key, Val: 2, Exp: prng.Pick(r, []string{"", "", "1h"})}})
+				N := r.Range(2, 6)
+				for t := 0; t < N; t++ {
+					prog = append(prog, POp{T: t, R: rd, Op: kvx.Op{K: "C", Key: key, Val: prng.Pick(r, []int{0, 2}), Exp: prng.Pick(r, []string{"", "1h", "-1h", "-1h"})}})
+					if r.Chance(1, 3) {
+						prog = append(prog, POp{T: t, R: rd, Op: kvx.Op{K: "G", Key: key}})
+					}
+				}
+			}
+			emit(be, "occupied", pickProcs(r), prog)
+		}
+	}
+	occupied("inmem", p.crI/8, 8, "C02OI")
+	occupied("redis", p.crR/4, 4, "C02OR")
 	// ---- racing CasByVersion against one version
 	casrace := func(be string, n, rounds int, salt string) {
 		for i := 0; i < n; i++ {
